@@ -70,6 +70,15 @@ def run(tier):
             if e.get("skip") or ({"heredoc/empty", "nowdoc/empty"} & set(e["used"])):
                 continue
             tasks.append({"op": "format_check", "src": e["variants"][0]["src"], "ver": progs.VERS[family][0], "_i": 2 * 10 ** 7 + j, "_u": e["used"], "_l": "none"})
+        # every mix of the forms of if / elseif / else (plain and alternative syntax) nested in each other, up to six of them; the same
+        # for loops, try / catch / finally and switch (SyntaxGen's self-nesting mode with a family as the focus, exhaustive)
+        for fam_name, w in (("if", 6 if tier == "quick" else 7), ("loop", 2), ("try", 3 if tier == "quick" else 4), ("switch", 3 if tier == "quick" else 4)):
+            tf, bf = progs.family_nesting(check, family, fam_name, w)
+            for j, e in enumerate(progs.expand_all(tf, bf, core.seed(), ["none"])):
+                if e.get("skip"):
+                    continue
+                tasks.append({"op": "format_check", "src": e["variants"][0]["src"], "ver": progs.VERS[family][0],
+                              "_i": 3 * 10 ** 7 + 10 ** 6 * len(fam_name) + j, "_u": e["used"], "_l": "none"})
         # programs nested many blocks deep (indentation state of the formatter)
         for j, src in enumerate(progs.deep_sources(check, family, core.seed(), 60 if tier == "quick" else 600)[: (25 if tier == "quick" else 300)]):
             tasks.append({"op": "format_check", "src": src, "ver": progs.VERS[family][0], "_i": 10 ** 7 + j, "_u": ["deep-nesting"], "_l": "none"})
